@@ -289,7 +289,15 @@ impl<'e> Visitor<'e, 'e> for DepGraph<'e> {
                         }
 
                         for closure in closures {
-                            self.scope(&closure.name.name, BindType::Closure, |self_| {
+                            // A member without parameters is a recursive value: unlike a function
+                            // it is evaluated when the group is created, so a call inside it must
+                            // keep it (and the bindings around it) alive
+                            let bind_type = if closure.args.is_empty() {
+                                BindType::Expr
+                            } else {
+                                BindType::Closure
+                            };
+                            self.scope(&closure.name.name, bind_type, |self_| {
                                 self_.visit_expr(closure.expr);
                             });
                         }
